@@ -150,6 +150,16 @@ func runUMFull(c UCase) (Case, unmarshaler.UnmarshaledError) {
 		input = c.Doc.decoded()
 	}
 	snapshot := fmt.Sprintf("%#v", deepView(input))
+	// ONE unmarshaler instance serves the first call and all repetitions (a per-instance
+	// memo would show as instability)
+	dec := func(d *unmarshaler.DecodedData) (*unmarshaler.DecodedData, error) {
+		if c.DecErr {
+			return nil, errors.New("decoder failed")
+		}
+		return d, nil
+	}
+	umJSON := unmarshaler.NewJSON(w.res, w.options()...)
+	umDD := unmarshaler.New(w.res, dec, w.options()...)
 	var res unmarshaler.UnmarshaledError
 	var err error
 	panicked := ""
@@ -160,15 +170,9 @@ func runUMFull(c UCase) (Case, unmarshaler.UnmarshaledError) {
 			}
 		}()
 		if c.Bytes != "" {
-			res, err = unmarshaler.NewJSON(w.res, w.options()...).Unmarshal([]byte(c.Bytes))
+			res, err = umJSON.Unmarshal([]byte(c.Bytes))
 		} else {
-			dec := func(d *unmarshaler.DecodedData) (*unmarshaler.DecodedData, error) {
-				if c.DecErr {
-					return nil, errors.New("decoder failed")
-				}
-				return d, nil
-			}
-			res, err = unmarshaler.New(w.res, dec, w.options()...).Unmarshal(input)
+			res, err = umDD.Unmarshal(input)
 		}
 	}()
 	unchanged := fmt.Sprintf("%#v", deepView(input)) == snapshot
@@ -181,15 +185,9 @@ func runUMFull(c UCase) (Case, unmarshaler.UnmarshaledError) {
 			var r2 unmarshaler.UnmarshaledError
 			var e2 error
 			if c.Bytes != "" {
-				r2, e2 = unmarshaler.NewJSON(w.res, w.options()...).Unmarshal([]byte(c.Bytes))
+				r2, e2 = umJSON.Unmarshal([]byte(c.Bytes))
 			} else {
-				dec := func(d *unmarshaler.DecodedData) (*unmarshaler.DecodedData, error) {
-					if c.DecErr {
-						return nil, errors.New("decoder failed")
-					}
-					return d, nil
-				}
-				r2, e2 = unmarshaler.New(w.res, dec, w.options()...).Unmarshal(input)
+				r2, e2 = umDD.Unmarshal(input)
 			}
 			cur := ""
 			if e2 != nil {
